@@ -2091,3 +2091,43 @@ class MainJsonN(Unit):
         P.prove([e for e in ctx.fs if e[0] not in ('open_r', 'walk')] == [], "main itself touches no file")
         cfgs = ctx.ghost.get('jconfigs', [])
         P.prove(all(c is cfgs[0] for c in cfgs), "every conversion gets the one Config of this run")
+
+
+# ------------------------------------------------------------------ extractAndSummarizePEL: the body behind the contract used by -l
+class ExtractAndSummarize(Unit):
+    """one file of --list: (entry id, summary) for a selected PEL whose summary decodes; its hex dump instead with --hex;
+    ('', '') for anything else, with decode failures reported on stderr only"""
+    prop = "C08"
+    name = "extractAndSummarizePEL"
+    target = PM + "extractAndSummarizePEL"
+    contracts = [CParsePELSummary, CPrintHex]
+    io_faults = False
+
+    def inputs(self, S):
+        self._d = Dir(1)
+        self.env = FsEnv(self._d)
+        return dict(file=self._d.path(0), config=mk_config(S))
+
+    def check(self, P, inp, old, out):
+        if not P.symbolic:
+            return
+        ctx = P.ctx
+        k = key_of(self._d.contents[0])
+        P.prove(out.returned, "never raises, whatever the file contains")
+        if not out.returned:
+            return
+        sd = ufun('pel_summary_decodes', Val, z3.BoolSort())(k)
+        hexm = ctx.is_true(truth(field(inp['config'], 'hex')))
+        if ctx.is_true(z3.And(hdr_ok(k), sel(k), sd)):
+            if hexm:
+                P.prove(Eq(list(ctx.stdout), [('hexdump-of', k)]) and out.value == ("", ""),
+                        "--hex: the delimited hex dump of exactly this file, no list entry")
+            else:
+                e, sm = out.value
+                P.prove(Eq(e, mkstr([Opq(ufun('pel_eid0x', Val, PyStr)(k))])) and val_term(sm) == val_term(summary_of(k)) and
+                        len(ctx.stdout) == 0, "the entry of a selected, decodable PEL: (entry id, summary), nothing printed")
+        else:
+            P.prove(out.value == ("", "") and len(ctx.stdout) == 0, "anything else: no entry, nothing on stdout")
+            if ctx.is_true(z3.And(hdr_ok(k), sel(k), z3.Not(sd))):
+                P.prove(len(ctx.stderr) == 1, "a decode failure is reported on stderr")
+        P.prove([e_ for e_ in ctx.fs if e_[0] not in ('open_r',)] == [], "no file-system change")
